@@ -216,9 +216,9 @@ theorem specMove_content_keep_far {f : Forest} {c : Nat} {t : HTree} {q : Nat} {
       intro e
       apply hfar
       rw [Forest.parent?_of_ctx hctx, e]
-    obtain ⟨φ1, F1⟩ := far_kid (keep := Keep.resident k.handle) inv norm (Keep.resident_spec k.handle)
+    obtain ⟨⟨φ1, F1⟩, _⟩ := far_kid (keep := Keep.resident k.handle) inv norm (Keep.resident_spec k.handle)
       so sq hpo hqt hvq
-    obtain ⟨φ2, F2⟩ := far_kid (keep := Keep.earlier) inv norm (Keep.earlier_spec k.handle) so sq hpo hqt hvq
+    obtain ⟨⟨φ2, F2⟩, _⟩ := far_kid (keep := Keep.earlier) inv norm (Keep.earlier_spec k.handle) so sq hpo hqt hvq
     exact F1.content_keep F2 hleafL hleaft dest hocc hsite
 
 end XotModel
